@@ -7,7 +7,7 @@ BOUNDS = {"declared_size": "any usize (symbolic, both sides of the 1 MiB mmap th
           "declared_integrity": "none / correct / wrong digest of the writer's algorithm / correct or wrong digest of another algorithm / "
                                 "two-hash values (two algorithms) whose digests are both right or both wrong; a value that is right "
                                 "only for an algorithm the writer was explicitly told not to use may be rejected or accepted",
-          "prior_state": "key absent / present with other data / removed",
+          "prior_state": "key absent / present with other data / present with the same data / removed",
           "outside": "declared integrities that are not well-formed"}
 
 INTEGRITY = ["none", "correct", "wrong", "other-correct", "other-wrong", "multi-right", "multi-wrong"]
@@ -48,8 +48,11 @@ def commit_rules(ctx, algo, keyed, integrity, size_mode, prior, nchunks, api):
     tag = "C08:%s:%s:%s:size-%s:prior-%s" % (api, "keyed" if keyed else "hash", integrity, size_mode, prior)
     old = None
     if keyed and prior != "absent":
-        O = scn.blob("O")
-        scn.distinct(D, O)
+        if prior == "present-same":
+            O = D          # the key already maps to the very bytes the rejected writer will stream
+        else:
+            O = scn.blob("O")
+            scn.distinct(D, O)
         r = scn.write(key, scn.whole(O))
         if r.kind != "ok":
             return
@@ -140,7 +143,7 @@ def tasks(tier, flavours):
                 for size_mode in ("none", "sym"):
                     priors = ["absent"]
                     if keyed and integrity in ("none", "wrong", "multi-right") :
-                        priors = ["absent", "present", "removed"] if (tier != "quick" or fl == "sync") else ["present"]
+                        priors = ["absent", "present", "present-same", "removed"] if (tier != "quick" or fl == "sync") else ["present", "present-same"]
                     for prior in priors:
                         for n in ((1, 2) if tier == "quick" else (1, 2, 3)):
                             if tier == "quick" and n == 2 and integrity not in ("none", "correct"):
